@@ -26,6 +26,7 @@ extern "C" {
 ssize_t __real_read(int fd, void* buf, size_t n);
 ssize_t __real_pread(int fd, void* buf, size_t n, off_t off);
 int __real_close(int fd);
+ssize_t __real_write(int fd, const void* buf, size_t n);
 }
 
 namespace c14 {
@@ -91,6 +92,45 @@ struct WrapPlan {
 };
 inline WrapPlan& plan() {
   static WrapPlan p;
+  return p;
+}
+
+// ---------------------------------------------------------------- the write() plan
+//
+// The write-side twin of the short-read plan: write() on `fd` accepts at most lim.next() bytes per call (a positive
+// count smaller than requested - what a pipe, a signal or the kernel's per-call limit produces - and the destination
+// keeps accepting afterwards), or fails without accepting anything at the call indices in fail_calls.
+struct WritePlan {
+  bool active = false;
+  int fd = -1;
+  Limiter lim;
+  uint64_t calls = 0, truncated = 0, accepted = 0, faulted = 0;
+  std::vector<uint64_t> fail_calls;
+  int fail_errno = EINTR;
+  void arm(int f, const Limiter& l) {
+    fd = f;
+    lim = l;
+    calls = truncated = accepted = faulted = 0;
+    fail_calls.clear();
+    fail_errno = EINTR;
+    active = true;
+  }
+  bool fail_now() {
+    for (uint64_t k : fail_calls)
+      if (k == calls) {
+        calls++;
+        faulted++;
+        return true;
+      }
+    return false;
+  }
+  void disarm() {
+    active = false;
+    fd = -1;
+  }
+};
+inline WritePlan& write_plan() {
+  static WritePlan p;
   return p;
 }
 
